@@ -501,6 +501,9 @@ func confirmHang(self, prop string, h *Found, scratch string) bool {
 
 func writeReplay(verif, prop string, seed uint64, tier string, f *Found, min json.RawMessage, v *Violation, log []string) string {
 	dir := filepath.Join(verif, "replays")
+	if d := os.Getenv("VERIF_REPLAY_DIR"); d != "" {
+		dir = d // development aid: sensitivity runs keep their output out of /verif
+	}
 	os.MkdirAll(dir, 0o755)
 	rf := ReplayFile{
 		Property: prop, Seed: seed, Run: f.Run, Tier: tier, Violation: *v, Class: v.Class(),
